@@ -231,6 +231,34 @@ theorem Edit.links (h : Heap) (e : Edit) (x : Id) :
       refine ⟨fun q hq => ?_, fun y hy => ?_⟩
       · rw [mark_parent] at hq; exact fin.1 q hq
       · rw [mark_kids] at hy; exact fin.2 y hy
+  | appendObject n k v =>
+    have gp := appendNode_parent h n (some k) v x
+    have gk := appendNode_kids h n (some k) v x
+    unfold Edit.run Heap.appendObject
+    simp only [Edit.names]
+    split
+    · exact ⟨fun q hq => Or.inl hq, fun y hy => Or.inl hy⟩
+    generalize h.appendNode n (some k) v = res at gp gk
+    obtain ⟨h1, o⟩ := res
+    simp only [] at gp gk
+    have fin : (∀ q : Id, (h1.get x).parent = some q → (h.get x).parent = some q ∨ (q : Nat) ∈ [n, v]) ∧
+        (∀ y : Id, y ∈ (h1.childMap x).vals → y ∈ (h.childMap x).vals ∨ (y : Nat) ∈ [n, v]) := by
+      refine ⟨fun q hq => ?_, fun y hy => ?_⟩
+      · rcases gp q hq with a | ⟨_, a⟩
+        · left; exact a
+        · right; rw [a]; simp
+      · rcases gk y hy with a | a
+        · left; exact a
+        · right; rw [a]; simp
+    cases o with
+    | err e => exact fin
+    | panic s => exact fin
+    | ok u =>
+      cases u
+      simp only []
+      refine ⟨fun q hq => ?_, fun y hy => ?_⟩
+      · rw [mark_parent] at hq; exact fin.1 q hq
+      · rw [mark_kids] at hy; exact fin.2 y hy
 
 /-! ### sides -/
 
@@ -274,6 +302,10 @@ theorem Edit.side {H : Heap} {P : Nat → Prop} (cP : Closed H P) (cN : Closed H
       have rn := region n (hn n (by simp [Edit.names])) m hm
       have rv := region v (hn v (by simp [Edit.names])) m hm
       exact appendArray_frame H n v m (ne v (hn v (by simp [Edit.names]))) rn.1 rn.2.1 rv.2.2
+    | appendObject n k v =>
+      have rn := region n (hn n (by simp [Edit.names])) m hm
+      have rv := region v (hn v (by simp [Edit.names])) m hm
+      exact appendObject_frame H n k v m (ne v (hn v (by simp [Edit.names]))) rn.1 rn.2.1 rv.2.2
   refine ⟨frame, ?_, ?_⟩
   · intro x hx
     obtain ⟨l1, l2⟩ := Edit.links H e x
